@@ -192,6 +192,24 @@ pub fn run(ctx: &Ctx) -> (Acc, Report) {
             ("serde_json(Vec<SecretKey>)".into(), serde_json::to_string(&vec![sk.clone(), sk.clone()]).unwrap_or_default()),
             ("Debug(lookup result)".into(), format!("{:?}", auth.lookup(AK))),
         ];
+        // serde: an impl can ask its serializer one question (is_human_readable); both classes of serializer, through a
+        // recorder that logs every primitive it is handed, for the secret alone and embedded in containers
+        #[derive(serde::Serialize)]
+        struct Holder {
+            name: String,
+            key: SecretKey,
+            maybe: Option<SecretKey>,
+        }
+        for human in [true, false] {
+            let class = if human { "human-readable" } else { "binary" };
+            let lossy = |v: Vec<u8>| String::from_utf8_lossy(&v).into_owned();
+            renderings.push((format!("serde[{class}](SecretKey)"), lossy(crate::recser::record(&sk, human))));
+            renderings.push((format!("serde[{class}](Option/Vec/tuple of SecretKey)"), lossy(crate::recser::record(&(Some(sk.clone()), vec![sk.clone()], (1u8, sk.clone())), human))));
+            renderings.push((format!("serde[{class}](struct holding a SecretKey)"), lossy(crate::recser::record(&Holder { name: "n".into(), key: sk.clone(), maybe: Some(sk.clone()) }, human))));
+            let mut m = std::collections::BTreeMap::new();
+            m.insert("k".to_owned(), sk.clone());
+            renderings.push((format!("serde[{class}](map of SecretKey)"), lossy(crate::recser::record(&m, human))));
+        }
         for d in driver::drivers() {
             renderings.push((format!("Debug(S3Request<{}Input>)", d.name()), d.request_debug_with_credentials(AK, SK)));
         }
@@ -215,7 +233,7 @@ pub fn run(ctx: &Ctx) -> (Acc, Report) {
     }
     let rep = Report {
         level: "exploration",
-        rule: format!("{n_cases} requests (14 request classes of C05-C11 over {} SDK-encoded operations, POST forms valid / bad signature / bad policy, chunk-signed uploads valid / corrupted / truncated) x {n_cfgs} service configurations, each executed under a thread-local TRACE subscriber that renders every event and span field; searched: trace output, response head and body, call result, the request as the backend sees it, for the secret in 8 spellings (raw, AWS4-prefixed, base64, hex, HEX, byte-debug, URL-encoded, JSON-escaped). Plus Debug / pretty Debug / serde_json of SecretKey, Credentials, SimpleAuth and S3Request<Input> for each of the 96 operations with credentials attached. Distinct by id; every case is non-trivial (trace output is non-empty, checked).", bases.len()),
+        rule: format!("{n_cases} requests (14 request classes of C05-C11 over {} SDK-encoded operations, POST forms valid / bad signature / bad policy, chunk-signed uploads valid / corrupted / truncated) x {n_cfgs} service configurations, each executed under a thread-local TRACE subscriber that renders every event and span field; searched: trace output, response head and body, call result, the request as the backend sees it, for the secret in 8 spellings (raw, AWS4-prefixed, base64, hex, HEX, byte-debug, URL-encoded, JSON-escaped). Plus Debug / pretty Debug / serde_json of SecretKey, Credentials, SimpleAuth and S3Request<Input> for each of the 96 operations with credentials attached, and the serde form of SecretKey (alone, in Option/Vec/tuple/struct/map) through a recording serializer of each class an impl can distinguish (human-readable, binary). Distinct by id; every case is non-trivial (trace output is non-empty, checked).", bases.len()),
         exhaustive: true,
         extra: json!({"requests": n_cases, "configurations": n_cfgs}),
         assumptions: vec!["formatting sites that are not on an enumerated path are not covered".into(), "derived key material (HMAC outputs) is not searched for; the statement is about secret access keys".into()],
